@@ -1189,6 +1189,10 @@ const DEFS: &[&str] = &[
     "Z() := A",
     "Z() := F",
     "Z() :=",
+    // the same body as an earlier definition of the name, under a different signature
+    "A(x) := 1",
+    "G(x) := x + y",
+    "Z := A",
     // names that only ## can produce
     "xy(v) := { v }",
     "p1 := 7",
@@ -1540,15 +1544,63 @@ const COMPILE_PROGS: &[&str] = &[
 const COMPILE_VALUES: &[&str] = &["3", "( 1 + 2 )", "0x1F", "1u", "1.5", "2.0f", "true", "a", "x y", "unknown_id", "1 +", ""];
 
 fn check_compile_placement(value: &str, prog: &str, cfg: Cfg, acc: &mut Acc) {
-    acc.evals += 1;
-    let in_file = format!("#define N {}\n{}", value, prog);
     let replay = format!("kind: compile-placement\ncfg: {}\nV {}\n{}", cfg.name(), value, prog);
-    let defs = [("N", value)];
+    check_compile_placement_list(&[("N", value)], prog, cfg, replay, acc)
+}
+
+/// define lists with a repeated name (the last one wins, as with #define lines) and lists that name a predefined macro
+const COMPILE_LISTS: &[&[(&str, &str)]] = &[
+    &[("N", "3"), ("N", "4")],
+    &[("N", "4"), ("N", "3")],
+    &[("N", "3"), ("N", "3")],
+    &[("N", "3"), ("M", "N")],
+    &[("M", "N"), ("N", "3")],
+    &[("N", "3"), ("M", "5"), ("N", "M")],
+    &[("M", "5"), ("N", "3"), ("M", "6")],
+    &[("N", "1"), ("N", "")],
+    &[("RSSL_TARGET_HLSL", "0")],
+    &[("RSSL_TARGET_HLSL", "1")],
+    &[("RSSL_TARGET_MSL", "0")],
+    &[("RSSL_TARGET_MSL", "1")],
+    &[("RSSL_TARGET_HLSL", "0"), ("RSSL_TARGET_MSL", "0")],
+    &[("__HLSL_VERSION", "2018")],
+    &[("N", "RSSL_TARGET_HLSL")],
+    &[("N", "__HLSL_VERSION")],
+    &[("RSSL_TARGET_HLSL", "N"), ("N", "0")],
+    &[("N", "2"), ("RSSL_TARGET_MSL", "N")],
+];
+
+const COMPILE_LIST_PROGS: &[&str] = &[
+    "int f() { return N; }\n",
+    "#ifdef M\nint f() { return M; }\n#else\nint f() { return N; }\n#endif\n",
+    "#if RSSL_TARGET_HLSL\nint f() { return 1; }\n#else\nint f() { return 2; }\n#endif\n",
+    "#if RSSL_TARGET_MSL\nint f() { return 1; }\n#elif RSSL_TARGET_HLSL\nint f() { return 2; }\n#else\nint f() { return 3; }\n#endif\n",
+    "int f() { return __HLSL_VERSION; }\n",
+    "#if N\nint f() { return N + 1; }\n#else\nint f() { return 0; }\n#endif\n",
+];
+
+fn list_replay(defs: &[(&str, &str)], prog: &str, cfg: Cfg) -> String {
+    let mut r = format!("kind: compile-placement-list\ncfg: {}\nn: {}\n", cfg.name(), defs.len());
+    for (n, v) in defs {
+        r.push_str(&format!("{}\t{}\n", n, v));
+    }
+    r.push_str(prog);
+    r
+}
+
+fn check_compile_placement_list(defs: &[(&str, &str)], prog: &str, cfg: Cfg, replay: String, acc: &mut Acc) {
+    acc.evals += 1;
+    let value = defs.last().map(|d| d.1).unwrap_or("");
+    let mut in_file = String::new();
+    for (n, v) in defs {
+        in_file.push_str(&format!("#define {} {}\n", n, v));
+    }
+    in_file.push_str(prog);
     let fa = [("main.rssl", prog)];
     let fb = [("main.rssl", in_file.as_str())];
-    let a = guard(|| Job { files: &fa, entry: "main.rssl", defines: &defs, cfg, mode: Mode::NoPipeline, validate_layout: false }.run());
+    let a = guard(|| Job { files: &fa, entry: "main.rssl", defines: defs, cfg, mode: Mode::NoPipeline, validate_layout: false }.run());
     let b = guard(|| Job { files: &fb, entry: "main.rssl", defines: &[], cfg, mode: Mode::NoPipeline, validate_layout: false }.run());
-    let desc = format!("compile({:?}, defines=[(N,{:?})]) vs compile({:?}) on {}", prog, value, in_file, cfg.name());
+    let desc = format!("compile({:?}, defines={:?}) vs compile({:?}) on {}", prog, defs, in_file, cfg.name());
     for (side, o) in [("argument list", &a), ("in-file", &b)] {
         if let Err(p) = o {
             let other = if side == "in-file" { &a } else { &b };
@@ -1581,11 +1633,11 @@ fn check_compile_placement(value: &str, prog: &str, cfg: Cfg, acc: &mut Acc) {
         }
         (Err(x), Err(y)) => {
             acc.count("compile_placement_both_reject");
-            if let Some(shifted) = shift_lines(y, 1) {
+            if let Some(shifted) = shift_lines(y, defs.len() as u32) {
                 if shifted != *x {
                     acc.violation(Violation {
                         signature: "define-placement|diagnostic-differs".into(),
-                        detail: format!("{}: argument-list diagnostic {:?}, in-file diagnostic (lines shifted by one) {:?}", desc, x, shifted),
+                        detail: format!("{}: argument-list diagnostic {:?}, in-file diagnostic (lines shifted by the number of defines) {:?}", desc, x, shifted),
                         replay,
                     });
                 } else {
@@ -2074,6 +2126,19 @@ pub fn run(ctx: &Ctx) -> i32 {
             check_compile_placement(v, p, cfg, acc);
         });
         rep.absorb("D3_define_placement_compile", r);
+        let mut lcases: Vec<(&[(&str, &str)], &str, Cfg)> = Vec::new();
+        for l in COMPILE_LISTS {
+            for p in COMPILE_LIST_PROGS {
+                for cfg in [Cfg::Dx, Cfg::Vk, Cfg::Msl] {
+                    lcases.push((l, p, cfg));
+                }
+            }
+        }
+        let r = run_par(ctx, lcases.len() as u64, 4, |idx, acc| {
+            let (l, p, cfg) = lcases[idx as usize];
+            check_compile_placement_list(l, p, cfg, list_replay(l, p, cfg), acc);
+        });
+        rep.absorb("D3_define_placement_compile_lists", r);
     }
 
     rep.cov("definition_alphabet", Json::Arr(DEFS.iter().map(|d| Json::Str(d.to_string())).collect()));
@@ -2130,6 +2195,22 @@ pub fn replay(ctx: &Ctx, body: &str) -> i32 {
             let v = it.next().unwrap_or("").strip_prefix("V ").unwrap_or("").to_string();
             let prog = it.next().unwrap_or("").to_string();
             check_compile_placement(&v, &prog, cfg, &mut acc);
+        }
+        "kind: compile-placement-list" => {
+            let mut it = rest.splitn(3, '\n');
+            let cfg = it.next().unwrap_or("").strip_prefix("cfg: ").and_then(Cfg::from_name).unwrap_or(Cfg::Dx);
+            let n: usize = it.next().unwrap_or("").strip_prefix("n: ").and_then(|x| x.trim().parse().ok()).unwrap_or(0);
+            let tail = it.next().unwrap_or("");
+            let mut parts = tail.splitn(n + 1, '\n');
+            let mut defs: Vec<(String, String)> = Vec::new();
+            for _ in 0..n {
+                let l = parts.next().unwrap_or("");
+                let (a, b) = l.split_once('\t').unwrap_or((l, ""));
+                defs.push((a.to_string(), b.to_string()));
+            }
+            let prog = parts.next().unwrap_or("").to_string();
+            let d: Vec<(&str, &str)> = defs.iter().map(|(a, b)| (a.as_str(), b.as_str())).collect();
+            check_compile_placement_list(&d, &prog, cfg, list_replay(&d, &prog, cfg), &mut acc);
         }
         "kind: include" => {
             let (graph, tn) = match parse_graph(rest) {
